@@ -23,8 +23,9 @@ LinkSlotW(rel, tg) == IF tg = <<"-">> THEN <<>> ELSE (W(rel) :> LinkNode(tg))
 
 \* link universe: target shapes for a link at the package root (l) and one inside the directory s (k)
 TLp == { <<"f">>, <<"s">>, <<"s","g">>, <<"nowhere">>, <<"..","sib","g">>, <<"..","terraform-sources.json">>, <<"..","..","v">>,
-         <<"k">>, <<"..","w","f">>, <<"","A","T","w","f">>, <<"","A","v">>, <<"s","..","f">>, <<"p">> }
-TKp == { <<"..","f">>, <<"g">>, <<"..","..","sib">>, <<"..","..","sib","g">>, <<"..","l">> }
+         <<"k">>, <<"..","w","f">>, <<"","A","T","w","f">>, <<"","A","v">>, <<"s","..","f">>, <<"p">>,
+         <<".","..","w","f">>, <<"s","..","..","w","f">> }      \* re-entry through the work directory's name, not spelled with a leading ".."
+TKp == { <<"..","f">>, <<"g">>, <<"..","..","sib">>, <<"..","..","sib","g">>, <<"..","l">>, <<".","..","..","w","f">> }
 CoreP == (W(<<"f">>) :> FileNode(644, 2, 1)) @@ (W(<<"s">>) :> D7) @@ (W(<<"s","g">>) :> FileNode(600, 2, 2))
 LinkTrees ==
   { LinkSlotW(<<"l">>, l) @@ LinkSlotW(<<"s","k">>, k) @@ (IF fifo = "root" THEN (W(<<"p">>) :> FifoNode(644, 2)) ELSE IF fifo = "ins" THEN (W(<<"s","p">>) :> FifoNode(644, 2)) ELSE <<>>)
